@@ -25,8 +25,8 @@ CFG = dict(
     rule="lock-step in synctest bubbles, real client vs scripted peer, two outstanding calls (kind pairs unary+stream, stream+stream, "
          "unary+unary; streams with Header and RecvMsg waiting), alphabet = the 18 envelope shapes of clientgen.go x {call 0, call 1, "
          "unknown id} = 54 symbols. QUICK (9692 lock-step cases): ALL sequences of length 1 (54 x 3 kind pairs x stats on/off = 324) and ALL of "
-         "length 2 for EVERY kind pair (54^2 x 3 = 8748), + 500 seeded random sequences of length 3..6, + 120 (thorough 1500) 'then-new-calls' cases: a random sequence of 1..3 envelopes, THEN 1..2 calls (unary / stream) started afterwards, each answered by its own reply with a distinct token or left unanswered. THOROUGH (~163k cases): the "
-         "same, + ALL length-3 sequences addressed to the two calls (36^3 = 46656) for EVERY kind pair (139968), + 8000 length-4 "
+         "length 2 for EVERY kind pair (54^2 x 3 = 8748), + 500 seeded random sequences of length 3..6, + 120 (thorough 1500) 'then-new-calls' cases: a random sequence of 1..3 envelopes, THEN 1..2 calls (unary / stream) started afterwards, each answered by its own reply with a distinct token or left unanswered. THOROUGH (~68k cases, ~11 min): the "
+         "same, + ALL length-3 sequences addressed to the two calls (36^3 = 46656), each for ONE kind pair chosen by the sequence and the seed (three consecutive seeds give every sequence x every kind pair; all three in one run: 28 min), + 5000 length-4 "
          "sequences sampled by the seed, + 6000 random of length 3..6. Stats handler installed on every other case; one case in eight has the user action ClientConn.Close() at a seeded position (before any call, between envelopes, before / after the failure; a no-op of the model); each case is closed "
          "by a read failure followed by RecvMsg / Trailer. The full <= 4 space of the property's quantifier (54^4 x 3 = 2.5e7 lock-step "
          "cases) is beyond any tier; length 3 with unknown ids in the thorough tier (54^3 x 3 = 4.7e5) is left out for time. TestC13Surplus (216 cases, in a bubble, scripted peer): a unary call receives 1..3 replies in ONE burst (the surplus one lands in its "
